@@ -1,3 +1,42 @@
-From Ebml Require Import Base Tools Spec Reader.
-Example C04_ex : ebml_size 127 1 = SUnknown /\ ebml_size 127 2 = SKnown 127.
-Proof. vm_compute. split; reflexivity. Qed.
+(* C04 — parse result is independent of read chunking, buffer capacity and EOF pauses.  Statements only. *)
+From Ebml Require Import Base Tools Spec Reader Pure Proofs.Tactics Proofs.ReaderIO Proofs.Refine.
+
+(* For every configuration (tolerances, size limit, buffered set, EOF closing), every input, every initial capacity
+   (0 included) and every read script in which the source never reports Ok(0) before the end and never fails — any split of
+   the bytes into read() results — and every sequence of next()/try_recover() calls, the buffered reader machine produces
+   exactly the run of the abstract reader (Model/Pure.v: the parser with the whole remaining input visible) *)
+Theorem C04_refines : forall c cap0 script input ops, calm script ->
+  run_reader c cap0 script input ops = p_run c input ops.
+Proof. exact buffered_refines_pure. Qed.
+
+(* ... hence identical items, offsets and errors for any two capacities and chunkings *)
+Theorem C04_independent : forall c cap1 cap2 s1 s2 input ops, calm s1 -> calm s2 ->
+  run_reader c cap1 s1 input ops = run_reader c cap2 s2 input ops.
+Proof. exact chunking_capacity_independent. Qed.
+
+(* in particular: equal to reading the whole input from a slice (one read that returns everything) with the default capacity *)
+Theorem C04_equals_slice : forall c cap0 script input ops, calm script ->
+  run_reader c cap0 script input ops = run_reader c 65536 [] input ops.
+Proof. intros. apply chunking_capacity_independent; [assumption|constructor]. Qed.
+
+(* the refill loop is transparent and its answer depends only on how much input remains: the lemma the refinement rests on *)
+Theorem C04_refill_transparent : forall n st, WF st -> calm (r_script st) ->
+  ensure_post n st (fst (ensure n st)) (snd (ensure n st)).
+Proof. exact ensure_calm. Qed.
+Theorem C04_refill_answer : forall n st, WF st -> calm (r_script st) ->
+  snd (ensure n st) = Ok (n <=? r_wlen st + r_rlen st).
+Proof. exact ensure_answer. Qed.
+
+(* non-vacuity: a 14-byte document read one byte at a time into a zero-capacity buffer, and in one piece *)
+Example C04_ex :
+  let sp := [ {| e_id := 129; e_ty := DMaster; e_path := [] |}; {| e_id := 16643; e_ty := DMaster; e_path := [PId 129] |};
+              {| e_id := 16641; e_ty := DUInt; e_path := [PId 129; PId 16643] |}; {| e_id := 16642; e_ty := DBinary; e_path := [PId 129; PId 16643] |} ] in
+  let c := {| c_sp := sp; c_allow_id := false; c_allow_hier := false; c_allow_over := false; c_max := Some 4000000000;
+              c_buffered := []; c_emit_eof := true |} in
+  let doc := [129; 140; 65; 3; 137; 65; 1; 129; 5; 65; 2; 130; 1; 2] in
+  calm (repeat (Chunk 1) 14) /\
+  run_reader c 0 (repeat (Chunk 1) 14) doc [RAll] = run_reader c 65536 [] doc [RAll] /\
+  run_reader c 65536 [] doc [RAll] =
+    [OItem (TStart 129) 0; OItem (TStart 16643) 2; OItem (TElem 16641 (VU 5)) 5; OItem (TElem 16642 (VB [1; 2])) 9;
+     OItem (TEnd 16643) 2; OItem (TEnd 129) 0; ONone].
+Proof. split; [repeat constructor|]. vm_compute. split; reflexivity. Qed.
